@@ -282,6 +282,9 @@ BdatFinalErr == R(554, <<5, 0, 0>>)
 \* st.bk is the number of octets a failing backend will still read.
 MidPlans == {"early", "mid1", "mid4"}
 KOf(p) == CASE p = "early" -> 0 [] p = "mid1" -> 1 [] p = "mid4" -> 4 [] OTHER -> 0
+\* "eacc": the backend returns nil at once without reading anything - it has
+\* accepted the message as far as it is concerned; the rest of the message is
+\* skipped and the final reply is its verdict (as with DATA)
 
 \* v: "" (well-formed) | "3args" | "badlast";  p: plan chosen with the first chunk
 Bdat(v, n, lastc, p) ==
@@ -303,6 +306,16 @@ Bdat(v, n, lastc, p) ==
      ELSE IF cfg.maxBytes > 0 /\ st.bytes + n > cfg.maxBytes THEN
           /\ st' = Cleared(st)
           /\ Emit(cmd, <<R(552, <<5, 3, 4>>)>>, ResetCbs(st))
+     ELSE IF st.bdat = "deadok" \/ (first /\ p = "eacc") THEN
+          \* the backend has returned without an error (now, or earlier): what
+          \* still arrives is skipped; LAST gets the backend's verdict
+          LET cbs0 == IF first THEN begin \o endNone ELSE <<>> IN
+          IF lastc
+          THEN /\ st' = Cleared(st)
+               /\ Emit(cmd, Finals(R(250, <<2, 0, 0>>)), cbs0 \o <<CB("Reset", st.sess)>>)
+          ELSE /\ st' = [st EXCEPT !.bdat = "deadok", !.bplan = "eacc", !.bk = 0,
+                                   !.bytes = IF cfg.maxBytes > 0 THEN @ + n ELSE 0]
+               /\ Emit(cmd, <<R(250, <<2, 0, 0>>)>>, cbs0)
      ELSE IF dead THEN
           \* the backend has already returned an error
           IF n = 0 /\ ~lastc THEN
@@ -343,7 +356,7 @@ Bdat(v, n, lastc, p) ==
                   begin \o <<CB(dn \o ".end:eof", st.sess), CB("Reset", st.sess)>>)
 
 BdatPlans == {"acc", "rej", "early"} \cup (IF "panic" \in Alphabet THEN {"panic"} ELSE {})
-                \cup (IF "mid" \in Alphabet THEN {"mid1", "mid4"} ELSE {})
+                \cup (IF "mid" \in Alphabet THEN {"mid1", "mid4", "eacc"} ELSE {})
 
 \* all BDAT steps with declared size n
 BdatSized(n) ==
@@ -425,6 +438,15 @@ PanicMail ==
   /\ st' = ClosedSt(st)
   /\ Emit(Cmd("MAIL", "panic"), <<R(421, <<4, 0, 0>>)>>, <<CB("Mail", st.sess)>> \o CloseCbs(st))
 
+\* a backend panic in Reset (RSET with a session): recovered like any other -
+\* 421 4.0.0, connection closed, the session logged out
+PanicRset ==
+  /\ InCmdMode /\ "panic" \in Alphabet
+  /\ st.sess # 0
+  /\ st' = ClosedSt(st)
+  /\ Emit(Cmd("RSET", "panic"), <<R(421, <<4, 0, 0>>)>>,
+          AbortCbs(st) \o <<CB("Reset", st.sess), CB("Logout", st.sess)>>)
+
 \* The peer disconnects inside the message of an accepted DATA command (any
 \* octet offset after the 354, the end marker itself included).  The backend
 \* reads everything it can and passes the reader's error on: the reader fails
@@ -455,7 +477,7 @@ BdatCut(n, lastc, p, some) ==
   IN
   /\ InCmdMode /\ "cut" \in Alphabet
   /\ n \in ChunkSizes /\ n > 0
-  /\ ~(st.bdat = "open" /\ st.bplan \in MidPlans)
+  /\ ~(st.bdat = "open" /\ st.bplan \in MidPlans) /\ st.bdat # "deadok"
   /\ st.from /\ st.nrcpt > 0
   /\ ~(cfg.maxBytes > 0 /\ st.bytes + n > cfg.maxBytes)
   /\ (first <=> p # "")
@@ -602,7 +624,7 @@ Next ==
   \/ BdatAny
   \/ Rset \/ Noop \/ Vrfy \/ Unimpl
   \/ \E v \in {"unknown", "empty", "short", "nospace"} : BadLine(v)
-  \/ Quit \/ PeerClose \/ PeerAbort \/ LongLine \/ IdleTimeout \/ AuthIdle \/ PanicMail \/ DataPanic \/ AfterClose
+  \/ Quit \/ PeerClose \/ PeerAbort \/ LongLine \/ IdleTimeout \/ AuthIdle \/ PanicMail \/ PanicRset \/ DataPanic \/ AfterClose
   \/ \E over \in BOOLEAN : DataCut(over)
   \/ DataStall \/ (\E l \in BOOLEAN : BdatStall(l)) \/ BdatStallRefused
   \/ \E n \in ChunkSizes, l \in BOOLEAN, p \in {"", "acc", "rej", "early", "panic"}, some \in BOOLEAN : BdatCut(n, l, p, some)
@@ -620,7 +642,7 @@ Spec == Init /\ [][Next]_vars
 
 TypeOK ==
   /\ st.nrcpt \in 0..RcptBound /\ st.sess \in 0..3 /\ st.errCount \in 0..MaxErr
-  /\ st.bdat \in {"none", "open", "dead"}
+  /\ st.bdat \in {"none", "open", "dead", "deadok"}
 
 \* The observer (callbacks + replies only) and the server agree on the envelope:
 \* nothing leaks from one transaction into the next without the backend knowing.
@@ -721,7 +743,8 @@ C04_Enhanced ==
 C07_PositiveOnlyAfterEOF ==
   [][ (last'.cmd.c \in {"DATA", "BDAT"} /\ \E i \in DOMAIN last'.replies :
           last'.replies[i].code = 250 /\ (last'.cmd.c = "DATA" \/ last'.cmd.l))
-      => (\E i \in DOMAIN last'.cbs : last'.cbs[i].n \in {"Data.end:eof", "LMTPData.end:eof", "Data.end:none", "LMTPData.end:none"})
+      => \/ \E i \in DOMAIN last'.cbs : last'.cbs[i].n \in {"Data.end:eof", "LMTPData.end:eof", "Data.end:none", "LMTPData.end:none"}
+         \/ st.bdat = "deadok"     \* the backend had returned its (positive) verdict in an earlier step
     ]_vars
 
 \* a transfer cut short by a disconnect is never complete
